@@ -3,9 +3,13 @@
 package main
 
 import (
+	"encoding/hex"
 	"fmt"
+	"os"
 	"strconv"
 	"strings"
+
+	"github.com/NethermindEth/juno/db/memory"
 
 	"github.com/NethermindEth/juno/migration"
 	"verif/harness/lib"
@@ -24,6 +28,69 @@ func (h *harness) runnerProbes() {
 		Starts: []startSpec{{Reg: "mm", CancelAt: never, CrashAt: never}}}
 	for _, hist := range []runnerHistory{l9, unk} {
 		h.runnerHistoryCase(hist, "sentinel")
+	}
+}
+
+// ---- on-disk format of the runner's own records ----------------------------------------------
+
+// A database written by an EARLIER binary must stay readable: the bytes below are what the tree wrote for
+// the schema metadata {CurrentVersion: 0b101, LastTargetVersion: 0b10000111} and for a resume token of
+// migration 3 when this check was built. A change of the CBOR field names, of the key layout or of the
+// bucket numbers makes every existing database look "fresh" (all migrations run again on migrated data,
+// opt-out and downgrade protection void) although a database written and read by the same binary is fine.
+const (
+	goldenMetaKey = "29"
+	goldenMetaVal = "a26e43757272656e7456657273696f6e05714c61737454617267657456657273696f6e1887"
+	goldenIstKey  = "2a03"
+	goldenIstVal  = "00000000000000070102"
+)
+
+func (h *harness) onDiskFormat() {
+	md := migration.SchemaMetadata{CurrentVersion: 0b101, LastTargetVersion: 0b10000111}
+	tok := []byte{0, 0, 0, 0, 0, 0, 0, 7, 1, 2}
+	d := memory.New()
+	if err := migration.WriteSchemaMetadata(d, md); err != nil {
+		h.res.Fatalf("on-disk format: %v", err)
+		return
+	}
+	if err := migration.WriteIntermediateState(d, 3, tok); err != nil {
+		h.res.Fatalf("on-disk format: %v", err)
+		return
+	}
+	got := map[string]string{}
+	for k, v := range dump(d) {
+		got[hex.EncodeToString([]byte(k))] = hex.EncodeToString([]byte(v))
+	}
+	want := map[string]string{goldenMetaKey: goldenMetaVal, goldenIstKey: goldenIstVal}
+	h.res.Case("on-disk-format", true)
+	if os.Getenv("C18_PRINT_GOLDEN") != "" {
+		fmt.Fprintf(os.Stderr, "golden: %v\n", got)
+	}
+	if same, why := sameDump(got, want); !same {
+		h.res.Violate(lib.Violation{Sig: "runner-records-written-in-a-new-format", What: "schema metadata / resume token of an earlier binary: " + why,
+			Replay: map[string]any{"written": got, "earlierBinary": want}})
+	}
+	// the records of an earlier binary, read by this one
+	old := memory.New()
+	for k, v := range want {
+		kb, _ := hex.DecodeString(k)
+		vb, _ := hex.DecodeString(v)
+		_ = old.Put(kb, vb)
+	}
+	gmd, err := migration.GetSchemaMetadata(old)
+	gtok, err2 := migration.GetIntermediateState(old, 3)
+	h.res.Hit("on-disk-format:read-back")
+	if err != nil || err2 != nil || gmd != md || string(gtok) != string(tok) {
+		h.res.Violate(lib.Violation{Sig: "earlier-binarys-runner-records-unreadable", What: fmt.Sprintf(
+			"metadata written by an earlier binary reads as %+v (err %v), want %+v; resume token of migration 3 reads as %x (err %v), want %x",
+			gmd, err, md, gtok, err2, tok), Replay: map[string]any{"earlierBinary": want}})
+		return
+	}
+	// … and acted upon: a binary with three migrations must refuse it (bit 7 was opted into, bits 0 and 2 applied)
+	hist := runnerHistory{Init: diskSpec{HasMeta: true, Cur: 0b101, Last: 0b10000111}, Starts: []startSpec{{Reg: "mmm", CancelAt: never, CrashAt: never}}}
+	r := realStart(old, hist.Starts[0])
+	if r.open == "ok" {
+		h.res.Violate(lib.Violation{Sig: "newrunner-accepts-downgrade-or-optout", What: "the metadata of an earlier binary (applied 0b101, last target 0b10000111) is accepted by a binary with 3 migrations", Replay: hist})
 	}
 }
 
@@ -97,6 +164,30 @@ func (h *harness) svCorrespondence() {
 			reg = "-"
 		}
 		add("target "+reg, fmt.Sprintf("%x", uint64(t)))
+	}
+	// the registry's capacity (maxMigrations = 64): 63 / 64 registrations work and use bits 62 / 63, the 65th
+	// panics (With and WithOptional alike); Count / Entries / OptionalMigrationFlags follow the number registered
+	for _, n := range []int{63, 64, 65} {
+		for _, last := range []byte{'m', 'e', 'd'} {
+			reg := strings.Repeat("m", n-1) + string(last)
+			var t migration.SchemaVersion
+			var count, entries, flags int
+			_, panicked, _ := lib.Try(func() error {
+				r := buildRegistry(reg, func(int) migration.Migration { return &scriptMig{} })
+				t, count, entries, flags = r.TargetVersion(), r.Count(), len(r.Entries()), len(r.OptionalMigrationFlags())
+				return nil
+			})
+			h.res.Hit(fmt.Sprintf("registry-size-%d:panic=%v", n, panicked))
+			if panicked {
+				add("target "+reg, "panic")
+				continue
+			}
+			add("target "+reg, fmt.Sprintf("%x", uint64(t)))
+			if count != n || entries != n || flags != n {
+				h.res.Violate(lib.Violation{Sig: "registry-accessors-disagree-with-registrations",
+					What: fmt.Sprintf("%d registrations: Count=%d len(Entries)=%d len(OptionalMigrationFlags)=%d", n, count, entries, flags), Replay: reg})
+			}
+		}
 	}
 	got, err := h.drv.AskAll(lines)
 	if err != nil {
@@ -204,6 +295,15 @@ func (h *harness) genHistory(r *lib.RNG) runnerHistory {
 		if r.Chance(1, 5) {
 			sp.FailAt = 1 + r.Intn(12)
 		}
+		if r.Chance(1, 6) { // the stored resume token of one or two migrations cannot be read
+			sp.IstReadFail = []int{shift + r.Intn(len(reg))}
+			if r.Chance(1, 3) {
+				sp.IstReadFail = append(sp.IstReadFail, shift+r.Intn(len(reg)))
+			}
+		}
+		if r.Chance(1, 14) {
+			sp.MetaReadFail = true
+		}
 		beh := h.genBeh(r, len(reg), wild)
 		sp.Beh = map[int]migBeh{}
 		for i, v := range beh {
@@ -259,6 +359,42 @@ func (h *harness) runnerAll() {
 					}
 				}
 			}
+		}
+	}
+	// read faults: every subset of {token of 0, token of 1, metadata} unreadable, on a fresh database, on one
+	// with a stored token for either migration and on one with migration 0 applied; behaviours that save,
+	// complete or fail; with and without a cancellation; then a healthy restart
+	for _, reg := range []string{"mm", "em", "me"} {
+		for _, init := range []diskSpec{{}, {HasMeta: true, Cur: 0, Last: 3, Ist: map[int]string{0: "a0"}},
+			{HasMeta: true, Cur: 0, Last: 3, Ist: map[int]string{1: "b1"}}, {HasMeta: true, Cur: 1, Last: 3, Ist: map[int]string{1: ""}},
+			{HasMeta: true, Cur: 3, Last: 3}} {
+			for mask := 1; mask < 8; mask++ {
+				for _, ca := range []int{never, 3, 0} {
+					for _, k0 := range []string{"complete", "coop", "fail", "inProgress"} {
+						for _, k1 := range []string{"complete", "coop"} {
+							sp := startSpec{Reg: reg, CancelAt: ca, CrashAt: never, MetaReadFail: mask&4 != 0,
+								Beh: map[int]migBeh{0: {Kind: k0, State: "01"}, 1: {Kind: k1, State: "02"}}}
+							for i := 0; i < 2; i++ {
+								if mask&(1<<uint(i)) != 0 {
+									sp.IstReadFail = append(sp.IstReadFail, i)
+								}
+							}
+							hist := runnerHistory{Init: init, Starts: []startSpec{sp, {Reg: reg, CancelAt: never, CrashAt: never}}}
+							h.runnerHistoryCase(hist, "enum-read")
+						}
+					}
+				}
+			}
+		}
+	}
+	// the opt-out error's flag list: every (last target, configuration) of a 4-migration registry with two
+	// optional migrations, plus last-target bits beyond the registry (the loop's `break` / errNewerDatabase)
+	for _, reg := range []string{"mdde", "mded", "mdmd", "dmmd", "medm"} {
+		for last := uint64(0); last < 64; last++ {
+			cur := last & 1
+			hist := runnerHistory{Init: diskSpec{HasMeta: true, Cur: cur, Last: last},
+				Starts: []startSpec{{Reg: reg, CancelAt: never, CrashAt: never}}}
+			h.runnerHistoryCase(hist, "enum-optout")
 		}
 	}
 	h.res.Hit("runner-enum2-done")
